@@ -1016,7 +1016,9 @@ pub fn run(spec: &RunSpec) -> ! {
     });
     unsafe { WORLD = Box::into_raw(world) };
     let sh = sighook_shim::shm::get();
-    sighook_shim::shm::put_str(&mut sh.crash_prop, "C07");
+    // a memory fault / use of freed memory in an iterator run: released state was touched (C01),
+    // a rejected add did not leave the instance as before (C12), otherwise a channel cell (C07)
+    sighook_shim::shm::put_str(&mut sh.crash_prop, if prop == "C12" || prop == "C01" { prop } else { "C07" });
 
     // ---- scenario
     // a slice of the C09-C11 runs drives the real async adapters instead of the stub reactor
@@ -1075,6 +1077,7 @@ pub fn run(spec: &RunSpec) -> ! {
     let nclosers = if prop == "C11" { 1 + sim::work(3) as usize } else { 1 };
     let concurrent_add = added.is_some() && sim::work(2) == 0;
     let rejected_add = sim::work(4) == 0;
+    let rejected_times = 1 + sim::work(3);
     // close (and the drop of the instance that follows) while deliveries are still running
     let early_close = (prop == "C11" && sim::work(3) != 0) || ((prop == "C03" || prop == "C01") && sim::work(2) == 0);
     let prefill = sim::work(4);
@@ -1303,7 +1306,10 @@ pub fn run(spec: &RunSpec) -> ! {
     }
     let controller = sim::spawn("controller", move || {
         if rejected_add {
-            do_rejected_add(&h2);
+            // (more than once: a retried refusal must not disturb what a concurrent reader holds)
+            for _ in 0..rejected_times {
+                do_rejected_add(&h2);
+            }
         }
         if let Some(a) = added {
             sim::sp_user();
